@@ -183,3 +183,30 @@ func VerifC08Shared() {
 	verifrt.Assert(verifC08Same(g2, w2), "second-run-equals-solo-run")
 	verifrt.Reached("end")
 }
+
+// VerifC08Corpus: the shared program corpus under the same non-interference
+// check: two VMs on one Bytecode, nothing reachable from it is written, each
+// run equals its solo run.
+func VerifC08Corpus() {
+	verifrt.Assert(VerifCorpusLen() == verifrt.Param("len"), "job-table-covers-the-corpus")
+	src, args := VerifCorpus(verifrt.Param("prog"))
+	noopt := verifrt.Param("opt") == 0
+	shared, err := Compile([]byte(src), CompilerOptions{NoOptimize: noopt})
+	verifrt.AssertMsg(err == nil, "compiles", src)
+	if err != nil {
+		return
+	}
+	run := func(bc *Bytecode) verifOutcome { return verifRunBC(bc, Map{"gx": Int(0)}, args...) }
+	soloBC, _ := Compile([]byte(src), CompilerOptions{NoOptimize: noopt})
+	want := run(soloBC)
+	verifrt.Freeze(shared)
+	var g1, g2 verifOutcome
+	verifrt.NoPanic("shared-runs-no-panic", func() {
+		g1 = run(shared)
+		g2 = run(shared)
+	})
+	verifrt.Unfreeze()
+	verifrt.AssertMsg(verifSameOutcome(g1, want), "first-run-equals-solo-run", src)
+	verifrt.AssertMsg(verifSameOutcome(g2, want), "second-run-equals-solo-run", src)
+	verifrt.Reached("end")
+}
